@@ -21,7 +21,7 @@ from harness import lib_prefetch as lp
 
 PID = 'C15'
 TITLE = 'The prefetching generator protocol delivers the generator faithfully'
-LEAN_MODULES = ['MlModel.Properties.C15', 'MlModel.Properties.C15Multi', 'MlModel.Witness.C15']
+LEAN_MODULES = ['MlModel.Properties.C15', 'MlModel.Properties.C15Multi', 'MlModel.Properties.C15Shutdown', 'MlModel.Witness.C15']
 TRUSTED = [
     'scheduler shim (harness/sched/shim.py) implements CPython Lock/RLock/Condition(FIFO notify, no spurious wake-up)/'
     'queue.Queue/Thread.start+join semantics; one atomic step = one synchronisation operation, the thread-local code after it '
